@@ -45,7 +45,18 @@ Fixpoint eval (e : expr) (env : list value) {struct e} : value :=
     its tape argument, the log density is integer valued. *)
 Definition zabs_diff (v p : value) : Z :=
   match v, p with VZ x, VZ y => Z.abs (x - y) | _, _ => 0 end.
+(** kind 3: a real dyadic categorical over {0,1,2} with masses (1/2,1/4,1/4)
+    rotated by the parameter; log masses in units of ln 2.  Arguments [(param)]. *)
+Definition dy_logpdf (x p : value) : Z :=
+  match x, p with
+  | VZ v, VZ q => if Z.eqb ((v - q) mod 3) 0 then -1 else -2
+  | _, _ => 0
+  end.
+
 Definition stub_logpdf (kind : nat) (x args : value) : Z :=
+  match kind, args with
+  | 3%nat, VTup [p] => dy_logpdf x p
+  | _, _ =>
   match args with
   | VTup [_; p] =>
       match kind with
@@ -54,6 +65,7 @@ Definition stub_logpdf (kind : nat) (x args : value) : Z :=
       | _ => - (3 * zabs_diff x p) - 2
       end
   | _ => 0
+  end
   end.
 Definition stub (kind : nat) : dist := {| logpdf := stub_logpdf kind |}.
 
